@@ -367,122 +367,436 @@ def gen_store_const():
     return gen_consts("StoreConst", [("CACHE_CAPACITY", p, "CACHE_CAPACITY", "BlockStore")])
 
 
-# ---------------------------------------------------------------- .proto schemas
+# ---------------------------------------------------------------- leader selection (C11)
+#
+# Three expressions of schedule.rs are translated into terms over the combinators of
+# lean/EraVerif/Model/LeaderOps.lean (`none` = the Rust expression panics):
+#   * `let turn = <e>;`                      in Schedule::view_leader
+#   * `let index = self.leaders[<e>];`       in Schedule::view_leader (round-robin arm)
+#   * LeaderSelection::leader_weighted_eligibility: the fixed `let` chain (Keccak of the 8 big-endian bytes of the
+#     input, reduced modulo the weight as BigUint) and its tail expression.
+# Types tracked: u64 | opt (Option<u64>) | vec (Vec<u64> of digits) | big (BigUint).
 
+def find_method_body(src, name):
+    """Body of the unique `fn <name>(...) ... {` (methods included), comments stripped, whitespace collapsed."""
+    ms = list(re.finditer(r"\bfn\s+" + re.escape(name) + r"\s*\(", src))
+    if len(ms) != 1:
+        raise TranslateError(f"fn {name}: expected exactly one definition, found {len(ms)}")
+    i = src.index("{", ms[0].end())
+    depth, j = 1, i + 1
+    while depth and j < len(src):
+        depth += {"{": 1, "}": -1}.get(src[j], 0)
+        j += 1
+    if depth:
+        raise TranslateError(f"fn {name}: unbalanced braces")
+    sig = " ".join(strip_comments(src[ms[0].start():i]).split())
+    return sig, " ".join(strip_comments(src[i + 1:j - 1]).split())
+
+
+def lsel_parse(s):
+    """parse_expr plus a trailing index `base[idx]` (the shared tokenizer has no brackets)."""
+    s = s.strip()
+    if s.endswith("]"):
+        depth = 0
+        for i in range(len(s) - 1, -1, -1):
+            depth += {"]": 1, "[": -1}.get(s[i], 0)
+            if depth == 0:
+                return ("index", lsel_parse(s[:i]), lsel_parse(s[i + 1:-1]))
+        raise TranslateError("unbalanced brackets")
+    if "[" in s or "]" in s:
+        raise TranslateError(f"brackets inside expression not supported: {s!r}")
+    return parse_expr(s)
+
+
+def lsel_path(e):
+    if e[0] == "var":
+        return e[1]
+    if e[0] == "field":
+        b = lsel_path(e[1])
+        return None if b is None else b + "." + e[2]
+    if e[0] == "mcall" and not e[3]:
+        b = lsel_path(e[1])
+        return None if b is None else b + "." + e[2] + "()"
+    return None
+
+
+def lsel(e, env):
+    """-> (lean term, type). env: rust path -> (lean variable, type)."""
+    path = lsel_path(e)
+    if path is not None and path in env:
+        return f"(some {env[path][0]})", env[path][1]
+    k = e[0]
+    if k == "num":
+        return f"(some {e[1]})", "u64"
+    if k == "cast":
+        a, ta = lsel(e[1], env)
+        if ta != "u64" or e[2] not in ("usize", "u64"):
+            raise TranslateError(f"cast {ta} as {e[2]}")
+        return f"(pCast64 {a})", "u64"
+    if k == "bin":
+        a, ta = lsel(e[2], env)
+        b, tb = lsel(e[3], env)
+        if ta == tb == "u64" and e[1] in "+-*/%":
+            op = {"+": "pAdd", "-": "pSub", "*": "pMul", "/": "pDiv", "%": "pRem"}[e[1]]
+            return f"({op} {a} {b})", "u64"
+        if ta == tb == "big" and e[1] == "%":
+            return f"(pRem {a} {b})", "big"
+        raise TranslateError(f"operator {e[1]} on {ta},{tb}")
+    if k == "index":
+        a, ta = lsel(e[1], env)
+        b, tb = lsel(e[2], env)
+        if ta != "vec" or tb != "u64":
+            raise TranslateError(f"index {ta}[{tb}]")
+        return f"(pIndex {a} {b})", "u64"
+    if k == "mcall":
+        recv, tr = lsel(e[1], env)
+        args = [lsel(a, env) for a in e[3]]
+        sig = (tr, e[2], tuple(t for _, t in args))
+        if sig == ("u64", "checked_div", ("u64",)):
+            return f"(pCheckedDiv {recv} {args[0][0]})", "opt"
+        if sig == ("u64", "checked_rem", ("u64",)):
+            return f"(pCheckedRem {recv} {args[0][0]})", "opt"
+        if sig == ("opt", "unwrap_or", ("u64",)):
+            return f"(pUnwrapOr {recv} {args[0][0]})", "u64"
+        if sig == ("opt", "unwrap", ()):
+            return f"(pUnwrap {recv})", "u64"
+        if sig == ("opt", "copied", ()) or sig == ("opt", "cloned", ()):
+            return recv, "opt"
+        if sig == ("big", "to_u64_digits", ()):
+            return f"(pDigits {recv})", "vec"
+        if sig == ("vec", "first", ()):
+            return f"(pFirst {recv})", "opt"
+        if sig == ("vec", "last", ()):
+            return f"(pLast {recv})", "opt"
+        raise TranslateError(f"method {e[2]} on {tr} with {sig[2]}")
+    raise TranslateError(f"unsupported expression {e}")
+
+
+def gen_leader_sel():
+    path = "node/libs/roles/src/validator/messages/schedule.rs"
+    src = read(path)
+    out = [HEADER.format(src=path), "import EraVerif.Model.LeaderOps", "", "namespace EraVerif.Gen.LeaderSel",
+           "open EraVerif.Model.LeaderOps", ""]
+    # --- view_leader: turn and round-robin index
+    sig, body = find_method_body(src, "view_leader")
+    if not re.fullmatch(r"fn view_leader\s*\(\s*&self\s*,\s*view_number\s*:\s*ViewNumber\s*\)\s*->\s*validator::PublicKey", sig):
+        raise TranslateError(f"view_leader: unexpected signature {sig!r}")
+    ms = re.findall(r"\blet turn\b[^=;]*=([^;]*);", body)
+    if len(ms) != 1 or len(re.findall(r"\bturn\s*[-+*/%|&^]?=[^=]", body)) != 1:
+        raise TranslateError("view_leader: expected exactly one binding of `turn` and no reassignment")
+    turn_src = ms[0].strip()
+    env = {"view_number.0": ("view", "u64"), "self.leader_selection.frequency": ("freq", "u64")}
+    t, ty = lsel(lsel_parse(turn_src), env)
+    if ty != "u64":
+        raise TranslateError(f"turn has type {ty}")
+    out += [f"/-- `let turn = …;` of `Schedule::view_leader`. Source: `{turn_src}` -/",
+            f"def turn (view freq : Nat) : Option Nat := {t}", ""]
+    ms = re.findall(r"self\s*\.\s*leaders\s*\[(.*?)\]\s*;", body)
+    if len(ms) != 1 or body.count("self.leaders[") + body.count("self .leaders [") != 1:
+        raise TranslateError("view_leader: expected exactly one `self.leaders[…];`")
+    idx_src = ms[0].strip()
+    env = {"turn": ("turn", "u64"), "self.leaders.len()": ("len", "u64")}
+    t, ty = lsel(lsel_parse(idx_src), env)
+    if ty != "u64":
+        raise TranslateError(f"round-robin index has type {ty}")
+    out += [f"/-- the index in `self.leaders[…]` (round-robin arm). Source: `{idx_src}` -/",
+            f"def rrIndex (turn len : Nat) : Option Nat := {t}", ""]
+    # --- leader_weighted_eligibility
+    sig, body = find_method_body(src, "leader_weighted_eligibility")
+    if not re.fullmatch(r"fn leader_weighted_eligibility\s*\(\s*input\s*:\s*u64\s*,\s*total_weight\s*:\s*u64\s*\)\s*->\s*u64", sig):
+        raise TranslateError(f"leader_weighted_eligibility: unexpected signature {sig!r}")
+    stmts = [x.strip() for x in body.split(";")]
+    tail = stmts.pop()
+    fixed = [r"let (\w+) = input\.to_be_bytes\(\)",
+             r"let (\w+) = Keccak256::new\(&(\w+)\)",
+             r"let (\w+) = BigUint::from_bytes_be\((\w+)\.as_bytes\(\)\)",
+             r"let (\w+) = BigUint::from\(total_weight\)"]
+    if len(stmts) != 5:
+        raise TranslateError(f"leader_weighted_eligibility: expected 5 statements and a tail, found {len(stmts)}")
+    g = [re.fullmatch(rx, st) for rx, st in zip(fixed, stmts)]
+    if not all(g):
+        raise TranslateError("leader_weighted_eligibility: the hash / BigUint prologue changed: " + "; ".join(stmts[:4]))
+    if g[1].group(2) != g[0].group(1) or g[2].group(2) != g[1].group(1):
+        raise TranslateError("leader_weighted_eligibility: the hash is not taken over the big-endian bytes of the input")
+    m5 = re.fullmatch(r"let (\w+) = (.*)", stmts[4])
+    if not m5 or not tail:
+        raise TranslateError("leader_weighted_eligibility: fifth statement is not a let / no tail expression")
+    names = [g[0].group(1), g[1].group(1), g[2].group(1), g[3].group(1), m5.group(1)]
+    if len(set(names)) != 5 or {"input", "total_weight"} & set(names):
+        raise TranslateError("leader_weighted_eligibility: shadowed bindings")
+    env = {g[2].group(1): ("hash", "big"), g[3].group(1): ("totalWeight", "big")}
+    r, ty = lsel(lsel_parse(m5.group(2)), env)
+    if ty != "big":
+        raise TranslateError(f"{m5.group(1)} has type {ty}")
+    env2 = {m5.group(1): ("r", "big")}
+    t, ty = lsel(lsel_parse(tail), env2)
+    if ty != "u64":
+        raise TranslateError(f"eligibility has type {ty}")
+    out += [f"/-- `{m5.group(1)}` of `leader_weighted_eligibility`, `hash` = Keccak256 of the 8 big-endian bytes of the",
+            f"input read as a big-endian integer. Source: `{m5.group(2)}` -/",
+            f"def reduce (hash totalWeight : Nat) : Option Nat := {r}", "",
+            f"/-- tail expression of `leader_weighted_eligibility`. Source: `{tail}` -/",
+            f"def lowDigit (r : Nat) : Option Nat := {t}", "",
+            "/-- `LeaderSelection::leader_weighted_eligibility` given the hash of the input. -/",
+            "def eligibility (hash totalWeight : Nat) : Option Nat := (reduce hash totalWeight).bind lowDigit", "",
+            "end EraVerif.Gen.LeaderSel"]
+    return "\n".join(out) + "\n"
+
+
+# ---------------------------------------------------------------- .proto schemas
+#
+# Reader for the subset of the protobuf language the repository uses: `syntax`, `package`, `import [public]`,
+# file/message/field/enum `option`s, `message` (nested), `enum`, `oneof`, `reserved`, fields with the labels
+# `optional` / `repeated` / `required` or none, `map<K, V>` fields, field options `[...]`.
+# Everything else (`extend`, `service`, `group`, `extensions`, `stream`, unknown tokens) raises TranslateError:
+# the schema table is what the C09 theorems are instantiated on, so a construct this reader does not understand
+# must stop the check rather than be skipped.
+
+# scalar type -> wire kind used by `impl From<prost_reflect::Kind> for Wire` (proto_fmt.rs)
 SCALARS = {"uint64": "varint", "uint32": "varint", "int64": "varint", "int32": "varint", "bool": "varint",
            "sint32": "varint", "sint64": "varint", "bytes": "len", "string": "len",
            "fixed64": "i64", "sfixed64": "i64", "double": "i64", "fixed32": "i32", "sfixed32": "i32", "float": "i32"}
 
+PROTO_TOK = re.compile(r"""\s*(?:
+      (?P<str>"(?:[^"\\\n]|\\.)*"|'(?:[^'\\\n]|\\.)*')
+    | (?P<id>\.?[A-Za-z_][A-Za-z0-9_]*(?:\.[A-Za-z_][A-Za-z0-9_]*)*)
+    | (?P<num>-?(?:0[xX][0-9a-fA-F]+|[0-9]+(?:\.[0-9]+)?(?:[eE][-+]?[0-9]+)?))
+    | (?P<sym>[{}=;\[\]<>,()])
+    )""", re.X)
 
-def parse_proto(text, pkg_hint):
-    """Returns (package, [messages]) where a message is dict(name, fields=[dict(num,name,type,label,oneof)],
-    enums). Nested messages are flattened with dotted names."""
+
+def proto_tokens(text):
     text = strip_comments(text)
-    pkg = re.search(r"\bpackage\s+([\w.]+)\s*;", text)
-    pkg = pkg.group(1) if pkg else pkg_hint
-    toks = re.findall(r"[A-Za-z_][\w.]*|\d+|[{}=;\[\]<>,]|\"[^\"]*\"", text)
-    pos = 0
-    msgs, enums = [], []
+    pos, out = 0, []
+    n = len(text)
+    while True:
+        while pos < n and text[pos].isspace():
+            pos += 1
+        if pos >= n:
+            return out
+        m = PROTO_TOK.match(text, pos)
+        if not m or m.end() == pos:
+            raise TranslateError(f"proto: cannot tokenize {text[pos:pos + 30]!r}")
+        kind = m.lastgroup
+        out.append((kind, m.group(kind)))
+        pos = m.end()
 
-    def parse_block(prefix):
-        nonlocal pos
+
+class ProtoParser:
+    def __init__(self, toks, fname):
+        self.t, self.i, self.fname = toks, 0, fname
+        self.syntax = None          # "proto2" | "proto3"
+        self.package = ""
+        self.messages = []          # dict(name=<dotted, relative to package>, fields=[...])
+        self.enums = []             # dotted names relative to package
+
+    def err(self, what):
+        ctx = " ".join(v for _, v in self.t[max(0, self.i - 3):self.i + 4])
+        raise TranslateError(f"proto {self.fname}: {what} near `{ctx}`")
+
+    def peek(self):
+        return self.t[self.i] if self.i < len(self.t) else (None, None)
+
+    def next(self):
+        tok = self.peek()
+        if tok[0] is None:
+            self.err("unexpected end of file")
+        self.i += 1
+        return tok
+
+    def expect(self, sym):
+        k, v = self.next()
+        if v != sym:
+            self.i -= 1
+            self.err(f"expected `{sym}`")
+
+    def ident(self):
+        k, v = self.next()
+        if k != "id":
+            self.i -= 1
+            self.err("expected an identifier")
+        return v
+
+    def integer(self):
+        k, v = self.next()
+        if k != "num" or not re.fullmatch(r"-?(0[xX][0-9a-fA-F]+|[0-9]+)", v):
+            self.i -= 1
+            self.err("expected an integer")
+        return int(v, 0)
+
+    def skip_statement(self):
+        """Skips to the `;` ending an `option` / `reserved` / `import` / `syntax` statement (no braces allowed,
+        except the balanced `{...}` of an aggregate option value)."""
+        depth = 0
+        while True:
+            k, v = self.next()
+            if v == "{":
+                depth += 1
+            elif v == "}":
+                depth -= 1
+                if depth < 0:
+                    self.err("unbalanced `}` in statement")
+            elif v == ";" and depth == 0:
+                return
+
+    def field_options(self):
+        """`[ name = value, ... ]` — skipped (packed / ctype / deprecated do not change what canonical_raw does);
+        `default` (proto2) is rejected because the canonical spec excludes it."""
+        k, v = self.peek()
+        if v != "[":
+            return
+        self.next()
+        depth = 1
+        while depth:
+            k, v = self.next()
+            if v == "[":
+                depth += 1
+            elif v == "]":
+                depth -= 1
+            elif k == "id" and v == "default":
+                self.err("field default values are not supported by the canonical encoding")
+
+    def parse_file(self):
+        while self.peek()[0] is not None:
+            k, v = self.peek()
+            if k == "sym" and v == ";":
+                self.next()
+            elif v == "syntax":
+                self.next()
+                self.expect("=")
+                k2, s = self.next()
+                if k2 != "str" or s[1:-1] not in ("proto2", "proto3"):
+                    self.err("bad syntax statement")
+                self.syntax = s[1:-1]
+                self.expect(";")
+            elif v == "package":
+                self.next()
+                self.package = self.ident()
+                self.expect(";")
+            elif v in ("import", "option"):
+                self.next()
+                self.skip_statement()
+            elif v == "message":
+                self.next()
+                self.message("")
+            elif v == "enum":
+                self.next()
+                self.enum("")
+            else:
+                self.err(f"unsupported top-level construct `{v}`")
+        if self.syntax is None:
+            self.syntax = "proto2"   # protobuf default when no syntax statement is present
+
+    def enum(self, prefix):
+        name = self.ident()
+        self.expect("{")
+        nvals = 0
+        while True:
+            k, v = self.peek()
+            if v == "}":
+                self.next()
+                break
+            if k == "sym" and v == ";":
+                self.next()
+            elif v in ("option", "reserved"):
+                self.next()
+                self.skip_statement()
+            else:
+                self.ident()
+                self.expect("=")
+                self.integer()
+                self.field_options()
+                self.expect(";")
+                nvals += 1
+        if nvals == 0:
+            self.err(f"enum {name} has no values")
+        self.enums.append(prefix + name)
+
+    def message(self, prefix):
+        name = self.ident()
+        if "." in name:
+            self.err("dotted message name")
+        self.expect("{")
         fields = []
-        oneof = None
-        stack_oneof = []
-        while pos < len(toks):
-            t = toks[pos]
-            if t == "}":
-                pos += 1
-                if stack_oneof:
-                    stack_oneof.pop()
-                    oneof = None
-                    continue
-                return fields
-            if t == "message":
-                name = toks[pos + 1]
-                assert toks[pos + 2] == "{"
-                pos += 3
-                sub = parse_block(prefix + name + ".")
-                msgs.append({"name": prefix + name, "fields": sub})
-                continue
-            if t == "enum":
-                name = toks[pos + 1]
-                pos += 3
-                vals = []
-                while toks[pos] != "}":
-                    if toks[pos] == "option" or toks[pos] == "reserved":
-                        while toks[pos] != ";":
-                            pos += 1
-                        pos += 1
-                        continue
-                    vals.append((toks[pos], int(toks[pos + 2])))
-                    pos += 3
-                    while toks[pos] != ";":
-                        pos += 1
-                    pos += 1
-                pos += 1
-                enums.append({"name": prefix + name, "values": vals})
-                continue
-            if t == "oneof":
-                oneof = toks[pos + 1]
-                assert toks[pos + 2] == "{"
-                pos += 3
-                stack_oneof.append(oneof)
-                continue
-            if t in ("reserved", "option"):
-                while toks[pos] != ";":
-                    pos += 1
-                pos += 1
-                continue
-            if t == "map":
-                raise TranslateError("map fields are not supported by the canonical encoding")
-            label = "singular"
-            if t in ("optional", "repeated", "required"):
-                label = t
-                pos += 1
-            ty, name, eq, num = toks[pos], toks[pos + 1], toks[pos + 2], toks[pos + 3]
-            if eq != "=":
-                raise TranslateError(f"cannot parse field near {toks[pos:pos+6]}")
-            pos += 4
-            while toks[pos] != ";":
-                pos += 1
-            pos += 1
-            fields.append({"num": int(num), "name": name, "type": ty, "label": label,
-                           "oneof": oneof if stack_oneof else None})
-        return fields
+        self.message_body(prefix + name + ".", fields, None)
+        self.messages.append({"name": prefix + name, "fields": fields})
 
-    while pos < len(toks):
-        t = toks[pos]
-        if t in ("syntax", "package", "import", "option"):
-            while toks[pos] != ";":
-                pos += 1
-            pos += 1
-        elif t == "message":
-            name = toks[pos + 1]
-            pos += 3
-            sub = parse_block(name + ".")
-            msgs.append({"name": name, "fields": sub})
-        elif t == "enum":
-            name = toks[pos + 1]
-            pos += 3
-            vals = []
-            while toks[pos] != "}":
-                vals.append((toks[pos], int(toks[pos + 2])))
-                pos += 3
-                while toks[pos] != ";":
-                    pos += 1
-                pos += 1
-            pos += 1
-            enums.append({"name": name, "values": vals})
-        else:
-            raise TranslateError(f"unexpected top-level token {t!r}")
-    return pkg, msgs, enums
+    def message_body(self, prefix, fields, oneof):
+        while True:
+            k, v = self.peek()
+            if v == "}":
+                self.next()
+                return
+            if k == "sym" and v == ";":
+                self.next()
+                continue
+            if k != "id":
+                self.err("unexpected token in message body")
+            if v == "message" and oneof is None:
+                self.next()
+                self.message(prefix)
+            elif v == "enum" and oneof is None:
+                self.next()
+                self.enum(prefix)
+            elif v == "oneof" and oneof is None:
+                self.next()
+                oname = self.ident()
+                self.expect("{")
+                before = len(fields)
+                self.message_body(prefix, fields, oname)
+                if len(fields) == before:
+                    self.err(f"oneof {oname} has no members")
+            elif v in ("option", "reserved") :
+                self.next()
+                self.skip_statement()
+            elif v in ("extend", "extensions", "group", "service", "rpc", "stream"):
+                self.err(f"unsupported construct `{v}`")
+            elif v == "map":
+                if oneof is not None:
+                    self.err("map field inside a oneof")
+                self.next()
+                self.expect("<")
+                kt = self.ident()
+                self.expect(",")
+                vt = self.ident()
+                self.expect(">")
+                fname = self.ident()
+                self.expect("=")
+                num = self.integer()
+                self.field_options()
+                self.expect(";")
+                fields.append({"num": num, "name": fname, "type": None, "label": "map", "oneof": None,
+                               "map": (kt, vt)})
+            else:
+                label = "none"
+                if v in ("optional", "repeated", "required"):
+                    if oneof is not None:
+                        self.err("label inside a oneof")
+                    label = v
+                    self.next()
+                ty = self.ident()
+                if ty in ("group",):
+                    self.err("groups are not supported")
+                fname = self.ident()
+                self.expect("=")
+                num = self.integer()
+                self.field_options()
+                self.expect(";")
+                fields.append({"num": num, "name": fname, "type": ty, "label": label, "oneof": oneof})
+
+
+def parse_proto(text, fname="<proto>"):
+    """Returns dict(syntax, package, messages=[dict(name, fields)], enums=[names]); names are dotted and relative
+    to the package (nested messages are flattened)."""
+    p = ProtoParser(proto_tokens(text), fname)
+    p.parse_file()
+    return {"syntax": p.syntax, "package": p.package, "messages": p.messages, "enums": p.enums}
 
 
 def proto_files():
     res = []
     for root, dirs, files in os.walk(os.path.join(REPO, "node")):
-        dirs[:] = [d for d in dirs if d not in ("target", ".git")]
+        dirs[:] = sorted(d for d in dirs if d not in ("target", ".git"))
         for f in files:
             if f.endswith(".proto"):
                 res.append(os.path.relpath(os.path.join(root, f), REPO))
@@ -490,70 +804,127 @@ def proto_files():
 
 
 def load_schemas():
-    """All messages of all .proto files under node/, fully qualified: {fqname: fields}."""
-    allmsgs, allenums, origin = {}, set(), {}
-    for pf in proto_files():
-        pkg, msgs, enums = parse_proto(read(pf), "")
-        for m in msgs:
-            fq = f"{pkg}.{m['name']}"
-            allmsgs[fq] = (pkg, m)
-            origin[fq] = pf
-        for e in enums:
-            allenums.add(f"{pkg}.{e['name']}")
+    """All messages of all .proto files under node/, fully qualified:
+    {fqname: dict(fields=[dict(num,name,kind,sub,repeated,presence,is_map,oneof)], file, proto3)}."""
+    files = proto_files()
+    if not files:
+        raise TranslateError("no .proto file found under node/")
+    allmsgs, allenums = {}, set()
+    for pf in files:
+        parsed = parse_proto(read(pf), pf)
+        pkg = parsed["package"]
+        pre = pkg + "." if pkg else ""
+        for m in parsed["messages"]:
+            fq = pre + m["name"]
+            if fq in allmsgs or fq in allenums:
+                raise TranslateError(f"{pf}: duplicate definition of {fq}")
+            allmsgs[fq] = {"pkg": pkg, "msg": m, "file": pf, "proto3": parsed["syntax"] == "proto3"}
+        for e in parsed["enums"]:
+            fq = pre + e
+            if fq in allmsgs or fq in allenums:
+                raise TranslateError(f"{pf}: duplicate definition of {fq}")
+            allenums.add(fq)
+
+    def resolve(scope, ty, where):
+        if ty.startswith("."):
+            cands = [ty[1:]]
+        else:
+            # innermost scope outward (message scopes, then package components), as protoc does
+            cands, s = [], scope
+            while True:
+                cands.append((s + "." if s else "") + ty)
+                if not s:
+                    break
+                s = s.rsplit(".", 1)[0] if "." in s else ""
+        for c in cands:
+            if c in allmsgs:
+                return "msg", c
+            if c in allenums:
+                return "enum", c
+        raise TranslateError(f"{where}: cannot resolve type {ty}")
+
     schemas = {}
-    for fq, (pkg, m) in allmsgs.items():
-        fields = []
-        for f in m["fields"]:
+    for fq, info in allmsgs.items():
+        proto3 = info["proto3"]
+        fields, seen_nums, seen_names = [], set(), set()
+        for f in info["msg"]["fields"]:
+            where = f"{fq}.{f['name']}"
+            if f["num"] in seen_nums or f["name"] in seen_names:
+                raise TranslateError(f"{where}: duplicate field number or name")
+            seen_nums.add(f["num"])
+            seen_names.add(f["name"])
+            if not (1 <= f["num"] < 2 ** 29) or 19000 <= f["num"] <= 19999:
+                raise TranslateError(f"{where}: field number {f['num']} out of range")
+            if f["label"] == "map":
+                kt, vt = f["map"]
+                if kt not in SCALARS or kt in ("bytes", "float", "double"):
+                    raise TranslateError(f"{where}: bad map key type {kt}")
+                if vt not in SCALARS:
+                    resolve(fq, vt, where)
+                fields.append({"num": f["num"], "name": f["name"], "kind": "len", "sub": None, "repeated": False,
+                               "presence": False, "is_map": True, "oneof": None})
+                continue
             ty = f["type"]
             if ty in SCALARS:
                 kind, sub = SCALARS[ty], None
             else:
-                # resolve: innermost scope outward
-                cands = []
-                scope = fq
-                while scope:
-                    cands.append(scope + "." + ty)
-                    scope = scope.rsplit(".", 1)[0] if "." in scope else ""
-                cands.append(ty)
-                hit = next((c for c in cands if c in allmsgs or c in allenums), None)
-                if hit is None:
-                    raise TranslateError(f"{fq}.{f['name']}: cannot resolve type {ty}")
-                if hit in allenums:
-                    kind, sub = "varint", None
-                else:
-                    kind, sub = "msg", hit
-            fields.append({"num": f["num"], "name": f["name"], "kind": kind, "sub": sub,
-                           "repeated": f["label"] == "repeated",
-                           "optional": f["label"] == "optional" or f["oneof"] is not None or kind == "msg",
-                           "oneof": f["oneof"], "scalar_type": ty if ty in SCALARS else None})
-        schemas[fq] = {"fields": sorted(fields, key=lambda x: x["num"]), "file": origin[fq]}
+                what, hit = resolve(fq, ty, where)
+                kind, sub = ("varint", None) if what == "enum" else ("msg", hit)
+            if f["label"] == "required" and proto3:
+                raise TranslateError(f"{where}: `required` in a proto3 file")
+            if f["label"] == "none" and not proto3 and f["oneof"] is None:
+                raise TranslateError(f"{where}: proto2 field without a label")
+            repeated = f["label"] == "repeated"
+            # FieldDescriptor::supports_presence(): proto3 -> explicit `optional`, oneof member, or singular message;
+            # proto2 -> every singular field
+            presence = (not repeated) and (f["label"] == "optional" or f["oneof"] is not None or kind == "msg"
+                                           or not proto3)
+            fields.append({"num": f["num"], "name": f["name"], "kind": kind, "sub": sub, "repeated": repeated,
+                           "presence": presence, "is_map": False, "oneof": f["oneof"]})
+        schemas[fq] = {"fields": sorted(fields, key=lambda x: x["num"]), "file": info["file"], "proto3": proto3}
     return schemas
+
+
+def lean_str(s):
+    if not re.fullmatch(r"[A-Za-z0-9_./ -]*", s):
+        raise TranslateError(f"unexpected character in name {s!r}")
+    return '"' + s + '"'
 
 
 def gen_schemas():
     schemas = load_schemas()
     names = sorted(schemas)
     idx = {n: i for i, n in enumerate(names)}
-    out = [HEADER.format(src="every .proto under node/ (" + str(len(proto_files())) + " files)"),
+    files = proto_files()
+    out = [HEADER.format(src="every .proto under node/ (" + str(len(files)) + " files)"),
            "import EraVerif.Model.WireSchema", "", "namespace EraVerif.Gen.Schemas", "open EraVerif.Model.Wire", ""]
-    out.append("/-- One entry per protobuf message; sub-messages refer to entries by index. -/")
-    out.append("def table : List MsgSchema := [")
+    out.append("/-- The .proto files the table was read from. -/")
+    out.append("def files : List String := [" + ", ".join(lean_str(f) for f in files) + "]")
+    out.append("")
+    out.append("/-- One entry per protobuf message (all files); message-typed fields refer to entries by index. -/")
+    out.append("def table : Table := [")
     rows = []
+    kinds = {"varint": ".varint", "len": ".bytes", "i64": ".fixed64", "i32": ".fixed32"}
     for n in names:
         fs = []
         for f in schemas[n]["fields"]:
-            kind = {"varint": ".varint", "len": ".bytes", "i64": ".fixed64", "i32": ".fixed32"}.get(f["kind"])
-            if f["kind"] == "msg":
-                kind = f"(.msg {idx[f['sub']]})"
+            kind = f"(.msg {idx[f['sub']]})" if f["kind"] == "msg" else kinds[f["kind"]]
             fs.append(f"    {{ num := {f['num']}, kind := {kind}, repeated := {str(f['repeated']).lower()}, "
-                      f"explicitPresence := {str(f['optional'] or f['repeated']).lower()} }}")
-        rows.append(f"  -- [{idx[n]}] {n}  ({schemas[n]['file']})\n  {{ name := \"{n}\", fields := [\n" + ",\n".join(fs) + "] }")
+                      f"explicitPresence := {str(f['presence']).lower()}, isMap := {str(f['is_map']).lower()} }}")
+        rows.append(f"  -- [{idx[n]}] {n}  ({schemas[n]['file']})\n  {{ name := {lean_str(n)}, "
+                    f"proto3 := {str(schemas[n]['proto3']).lower()}, fields := [\n" + ",\n".join(fs) + "] }")
     out.append(",\n".join(rows))
     out.append("]")
     out.append("")
+    out.append("/-- Index of a message by fully qualified name. -/")
+    out.append("def indexOf (name : String) : Option Nat := table.findIdx? (fun m => m.name == name)")
+    out.append("")
     out.append("end EraVerif.Gen.Schemas")
-    # side file for the harness/driver: name -> index
-    meta = {n: {"index": idx[n], "file": schemas[n]["file"]} for n in names}
+    # side file for the harness: name -> index, file, fields as the translator understood them
+    meta = {n: {"index": idx[n], "file": schemas[n]["file"], "proto3": schemas[n]["proto3"],
+                "fields": [{"num": f["num"], "name": f["name"], "kind": f["kind"],
+                            "sub": f["sub"], "repeated": f["repeated"], "presence": f["presence"],
+                            "is_map": f["is_map"]} for f in schemas[n]["fields"]]} for n in names}
     return "\n".join(out) + "\n", meta
 
 
@@ -564,6 +935,7 @@ TARGETS = {
     "NoiseConst": gen_noise_const,
     "MuxConst": gen_mux_const,
     "StoreConst": gen_store_const,
+    "LeaderSel": gen_leader_sel,
     "Schemas": gen_schemas,
 }
 
